@@ -921,6 +921,10 @@ bool Parser::parseExpressionWithPrecedenceUnary(ExpressionSyntax*& expr)
 {
     DBG_THIS_RULE();
 
+    DepthControl _(DEPTH_OF_EXPRS_,
+                   MAX_DEPTH_OF_EXPRS,
+                   "maximum depth of expressions reached");
+
     switch (peek().kind()) {
         /* 6.5.3.1 */
         case SyntaxKind::PlusPlusToken:
@@ -1083,6 +1087,10 @@ bool Parser::parseTypeTraitExpression_AtFirst(ExpressionSyntax*& expr, SyntaxKin
 bool Parser::parseExpressionWithPrecedenceCast(ExpressionSyntax*& expr)
 {
     DBG_THIS_RULE();
+
+    DepthControl _(DEPTH_OF_EXPRS_,
+                   MAX_DEPTH_OF_EXPRS,
+                   "maximum depth of expressions reached");
 
     switch (peek().kind()) {
         case SyntaxKind::OpenParenToken: {
@@ -1654,6 +1662,10 @@ bool Parser::parseNAryExpression_AtOperator(ExpressionSyntax*& baseExpr,
                                             std::uint8_t cutoffPrecedence)
 {
     DBG_THIS_RULE();
+
+    DepthControl _(DEPTH_OF_EXPRS_,
+                   MAX_DEPTH_OF_EXPRS,
+                   "maximum depth of expressions reached");
 
     auto CUR_DEPTH_OF_EXPR = DEPTH_OF_EXPRS_;
 
